@@ -66,6 +66,9 @@ CONFIGS = [
     ('create', 1, {}), ('create', 2, {}), ('create', 2, SAFE), ('create', 2, HCOLL), ('create', 2, _m(HCOLL, SAFE)),
     ('putrec', 1, {}), ('putrec', 2, {}), ('putrec', 2, HCOLL),
     ('redef1', 1, MU), ('redef1', 2, MU), ('redef1', 2, _m(MU, SAFE)), ('redef2', 1, MU), ('redef2', 2, MU),
+    # three records present: 3 = a record variable is added (records moved one at a time, last to first),
+    # 4 = only the header grows (whole-section move); every call position inside ncmpi_enddef is faulted
+    ('redef3', 1, {}), ('redef3', 2, {}), ('redef4', 1, {}), ('redef4', 2, {}),
     ('fill', 1, {}), ('fill', 2, {}),
     ('rw', 1, {}), ('rw', 2, {}), ('zero', 2, {}),
     ('nb', 1, {}), ('nb', 2, {}),
@@ -76,6 +79,10 @@ CONFIGS = [
 
 # harness class name -> constructor of Fault.errclass
 CLASSES_QUICK = ['IO', 'NO_SPACE']
+# programs in which EVERY data-transfer call position inside the named API is faulted, also in the quick tier
+# (a loss may depend on which of several moves fails, not only on the call stack), with these classes
+EVERY_POSITION = {'redef3': 'ncmpi_enddef', 'redef4': 'ncmpi_enddef'}
+CLASSES_EVERY = ['IO', 'NO_SPACE', 'QUOTA']
 CLASSES_THOROUGH = ['IO', 'NO_SPACE', 'QUOTA', 'ACCESS', 'READ_ONLY', 'FILE', 'BAD_FILE', 'OTHER', 'AMODE',
                     'NOT_SAME', 'NO_SUCH_FILE', 'FILE_EXISTS', 'UNKNOWN', 'INTERN', 'TRUNCATE', 'NEWCLASS']
 
@@ -408,7 +415,8 @@ def run(ctx):
                tuple(p['stack']), p['api'], p['bytes'] == 0)
         first = rep not in seen
         seen.add(rep)
-        if quick and first:
+        every = EVERY_POSITION.get(CONFIGS[p['ci']][0]) == p['api']
+        if quick and first and not every:
             # quick: at most 3 call stacks per (I/O site, nprocs, safe mode, root/non-root, API); the other
             # stacks of the same site (e.g. the header parser's many callers of hdr_fetch) keep their
             # 1-rank representatives and are all covered by the thorough tier
@@ -416,11 +424,13 @@ def run(ctx):
             percap[grp] = percap.get(grp, 0) + 1
             if percap[grp] > 3 and rep[0] > 1:
                 continue
-        for c in classes:
+        cls_list = list(classes) + ([c for c in CLASSES_EVERY if c not in classes] if every else [])
+        for c in cls_list:
             base = c in CLASSES_QUICK
             # quick: one position per distinct (nprocs, safe mode, root/non-root, call stack, API, zero-length)
             # thorough: every position for the two base classes, the representatives for the other classes
-            if not first and (quick or not base):
+            # EVERY_POSITION programs: every position inside the named API with CLASSES_EVERY, in both tiers
+            if not ((every and c in CLASSES_EVERY) or (first if (quick or not base) else True)):
                 continue
             performs = [1] if p['collective'] else ([1, 0] if (c == 'NO_SPACE' or (not quick and base)) else [1])
             for pf in performs:
@@ -576,6 +586,18 @@ def run(ctx):
     if not proof_ok:
         # a theorem no longer checks against the regenerated definitions: the injection runs above ARE the
         # failing-input search (every reached site x class); report the obligation if they found nothing new
+        broken = []
+        for x in pr['failed']:
+            m = re.match(r'(\w+\.v):(\d+)$', x)
+            if m and os.path.exists(os.path.join(C.COQ, m.group(1))):
+                head = open(os.path.join(C.COQ, m.group(1))).read().split('\n')[:int(m.group(2))]
+                nm = [re.match(r'\s*(?:Lemma|Theorem|Example)\s+(\S+)', l) for l in head]
+                nm = [z.group(1) for z in nm if z]
+                broken.append('%s (lemma %s)' % (x, nm[-1] if nm else '?'))
+            else:
+                broken.append(x)
+        pr['failed'] = broken
+        ctx.cov['proof_obligations_broken_at'] = broken
         if not unknown_viol:
             ctx.violation('proof obligations of Properties_C11.v do not check against the regenerated Gen_iosites.v: %s'
                           % ', '.join(pr['failed'][:4]),
